@@ -391,7 +391,7 @@ Section Reduce.
     | None :: r => None
     end.
 
-  (* FiberPool::parallel_reduce: chunk_size = max(1, len / max_workers); one fiber per chunk folds
+  (* FiberPool::parallel_reduce: chunk_size = max(1, len / max(1, max_workers)); one fiber per chunk folds
      from the identity; the partial results are folded from the identity in chunk order *)
   Definition parallel_reduce_k (k : nat) (xs : list T) : option T :=
     match xs with
@@ -401,7 +401,7 @@ Section Reduce.
            | None => None
            end
     end.
-  Definition fiber_chunk (max_workers : nat) (len : nat) : nat := Nat.max 1 (len / max_workers).
+  Definition fiber_chunk (max_workers : nat) (len : nat) : nat := Nat.max 1 (len / Nat.max 1 max_workers).
   (* concurrency::parallel_reduce: chunk_size = ceil(len / ncpu) *)
   Definition global_chunk (ncpu : nat) (len : nat) : nat := (len + ncpu - 1) / ncpu.
 End Reduce.
